@@ -270,13 +270,7 @@ func c16ForceHTTPS(px *Proxy) error {
 	o2 := *px.Opts
 	o2.ForceHTTPS = true
 	o2.Server.SecureBindAddress = "127.0.0.1:4443"
-	chain, err := buildPreAuthChain(&o2, px.P.sessionStore)
-	if err != nil {
-		return err
-	}
-	px.P.preAuthChain = chain
-	px.P.buildServeMux(o2.ProxyPrefix)
-	return nil
+	return verifRebuildPreAuthChain(px.P, &o2)
 }
 
 // ---------------------------------------------------------------------------------------------
